@@ -373,3 +373,111 @@ any_pattern_match = FunctionContract(
     canary=[("return any(", "return all(")],
 )
 CONTRACTS.append(any_pattern_match)
+
+
+# ------------------------------------------------------------------ DoLinks.run_molecule: what one placement of a link does
+LInter, BAtoms, BParams, BMeta, Cites = TKey('LInter'), TKey('BAtoms'), TKey('BParams'), TKey('BMeta'), TKey('Cites')
+IType = TKey('IType')                                      # an interaction type (a string; abstract: z3 strings are slow under quantifiers)
+Ev = TTuple(IType, BAtoms, BParams, BMeta, names=['type', 'atoms', 'parameters', 'meta'])
+TypeInters = TTuple(IType, TSeq(LInter), names=['type', 'inters'])
+InterTable = TSeq(TypeInters)                               # the items of an interaction dictionary, in its order
+
+
+def setup_place(cx):
+    from pyvc.builtins import list_append
+    REM = cx.val('REM', InterTable)                         # link.removed_interactions.items()
+    ADD = cx.val('ADD', InterTable)                         # link.interactions.items()
+    cx.spec_env.update(REM=REM, ADD=ADD)
+    EV_REM = cx.heap('EV_REM', cx.box('EV_REM', TSeq(Ev)))  # calls of molecule.remove_matching_interaction, in order
+    EV_ADD = cx.heap('EV_ADD', cx.box('EV_ADD', TSeq(Ev)))  # calls of molecule.add_or_replace_interaction, in order
+    # _build_link_interaction_from(molecule, interaction, match) by its contract (proved above): the interaction placed on the
+    # atoms this placement assigns, with its geometry-derived parameters computed on them
+    atoms_on, params_on, meta_of = cx.uf('atoms_on', [LInter], BAtoms), cx.uf('params_on', [LInter], BParams), cx.uf('meta_of', [LInter], BMeta)
+    absent = cx.uf('absent', [IType, LInter], TBool)         # remove_matching_interaction finds nothing to remove (ValueError)
+    match = Obj('match')
+    cites = cx.val('citations', Cites)
+    link = Obj('Link', removed_interactions=Obj('dict', items=Builtin(lambda e: REM, 'removed_interactions.items')),
+               interactions=Obj('dict', items=Builtin(lambda e: ADD, 'interactions.items')), citations=cites)
+    built = {}
+
+    def build(e, mol, interaction, m):
+        if mol is not molecule or m is not match:
+            raise EngineError('_build_link_interaction_from on another molecule / placement')
+        ie = to_z3(interaction, LInter)
+        t = (SV(BAtoms, atoms_on(ie)), SV(BParams, params_on(ie)), SV(BMeta, meta_of(ie)))
+        built[id(t)] = ie
+        return t
+    cx.spec_env['_build_link_interaction_from'] = Builtin(build, '_build_link_interaction_from')
+
+    def remove_matching(e, ty, inter):
+        li = built.get(id(inter))
+        if li is None:
+            raise EngineError('remove_matching_interaction of something _build_link_interaction_from did not build')
+        list_append(e, EV_REM, (ty,) + tuple(inter))
+        e.maybe_raise(z3.Not(absent(to_z3(ty, IType), li)), 'ValueError')
+
+    def add_or_replace(e, ty, atoms, parameters, meta, citations):
+        if citations is not cites:
+            raise EngineError('add_or_replace_interaction with other citations')
+        list_append(e, EV_ADD, (ty, atoms, parameters, meta))
+    molecule = Obj('Molecule', remove_matching_interaction=Builtin(remove_matching, 'molecule.remove_matching_interaction'),
+                   add_or_replace_interaction=Builtin(add_or_replace, 'molecule.add_or_replace_interaction'))
+    return dict(molecule=molecule, link=link, match=match)
+
+
+SPEC_PLACE = {
+    'is_ev': "lambda e, t, li: e.type == t and e.atoms == atoms_on(li) and e.parameters == params_on(li) and e.meta == meta_of(li)",
+}
+
+
+def _place_inv(T, EVN, off, I):
+    return [
+        # the interactions of the types handled so far have been passed on, each once, type by type and in order:
+        # those of the k-th type stand at off[k] .. off[k] + their number
+        "len({off}) == {I} and forall(lambda k: implies(0 <= k and k < {I}, 0 <= {off}[k] and {off}[k] + len({T}[k].inters) <= len({EV}) and "
+        "   {off}[k] + len({T}[k].inters) == ({off}[k + 1] if k + 1 < {I} else len({EV}))))".format(T=T, EV=EVN, off=off, I=I),
+        "forall(lambda k, i: implies(0 <= k and k < {I} and 0 <= i and i < len({T}[k].inters), "
+        "   is_ev({EV}[{off}[k] + i], {T}[k].type, {T}[k].inters[i])))".format(T=T, EV=EVN, off=off, I=I),
+        "implies({I} == 0, len({EV}) == 0) and implies({I} > 0, {off}[0] == 0)".format(EV=EVN, off=off, I=I),
+    ]
+
+
+def _place_inner(T, EVN, snap):
+    return [
+        "len({EV}) == len({snap}) + _i".format(EV=EVN, snap=snap),
+        "forall(lambda i: implies(0 <= i and i < _i, is_ev({EV}[len({snap}) + i], inter_type, interactions[i])))".format(EV=EVN, snap=snap),
+        "forall(lambda p: implies(0 <= p and p < len({snap}), {EV}[p] == {snap}[p]))".format(EV=EVN, snap=snap),
+    ]
+
+
+def _placement_part(which, T, EVN, start, end, canary):
+    return FunctionContract(
+        F, 'DoLinks.run_molecule', 'C05', short='DoLinks.run_molecule[one placement: %s]' % which, setup=setup_place, spec_defs=SPEC_PLACE,
+        spec_env=dict(LInter=LInter),
+        region=dict(within=["for link in links:", "for match in matches:"], start=start, end=end),
+        locals=dict(g_off=TSeq(TInt), g_S=TSeq(Ev)),
+        requires=["len(old(%s)) == 0" % EVN],
+        ghost_at={'entry': "g_off = []"},
+        ensures=_place_inv(T, EVN, 'g_off', 'len(%s)' % T),
+        modifies=[EVN],
+        loops={
+            'L1': LoopSpec(inv=_place_inv(T, EVN, 'g_off', '_i'), modifies=[EVN, 'g_off'], ghost_pre="g_off.append(len(%s))" % EVN),
+            'L1.1': LoopSpec(inv=_place_inner(T, EVN, 'g_S'), modifies=[EVN], ghost_init="g_S = list(%s)" % EVN),
+        },
+        canary=canary)
+
+
+# for one placement of a link: every interaction the link removes is looked for once (a ValueError when there is nothing to remove
+# is ignored), then every interaction of the link is added or replaced once - type by type and in the link's order, each placed
+# on this placement's atoms by _build_link_interaction_from, with the link's citations
+CONTRACTS.append(_placement_part(
+    'removals', 'REM', 'EV_REM', "for inter_type, interactions in link.removed_interactions.items():",
+    "for inter_type, interactions in link.interactions.items():",
+    [("molecule.remove_matching_interaction(inter_type, interaction)", "pass"),
+     ("                        except ValueError:\n                            pass", "                        except ValueError:\n                            break")]))
+CONTRACTS.append(_placement_part(
+    'interactions', 'ADD', 'EV_ADD', "for inter_type, interactions in link.interactions.items():",
+    "for loglevel, entries in link.log_entries.items():",
+    [("molecule.add_or_replace_interaction(inter_type, *interaction, link.citations)", "pass"),
+     ("molecule.add_or_replace_interaction(inter_type, *interaction, link.citations)",
+      "molecule.add_or_replace_interaction(inter_type, *interaction, link.citations)\n                        break")]))
